@@ -137,6 +137,12 @@ H('C30', 'All histories up to the depth executed in 4/16 separate processes with
          'dump must agree across processes.',
   tech='explicit-state history exploration repeated in separate processes (hash seed / process-history differential)')
 
+H('C23', 'Every ordered pair of 12 column types x a column of 15/25 stored values of the source type x '
+         '{ModifyColumn, metadata UpdateRecord}: each new cell equals the conversion by a separately '
+         'constructed column of the new type; nothing else changes but dependent formulas (compared '
+         'with a fresh recomputation).',
+  tech='exhaustive enumeration of type pairs x stored-value menus on the real engine')
+
 PLANNED = {}
 
 
